@@ -124,6 +124,25 @@ def _const_call(j):
     return False, None
 
 
+def kind_of(v):
+    """The CONTAINER KIND of a value as a function receives it: "tuple" / "list" / "nd<rank>" / "masked" / "-" (anything that is not a
+    sequence).  `freeze` / `enc` deliberately read a tuple, a list and a 1-D ndarray of the same elements as the same value; this is the
+    part of the value they drop.  A function called with `kinds=True` (see `make_func`) logs it per argument, so a harness can check that
+    an argument that the denotation says IS an element (`x[i]` of a list of tuples) arrives as that element and not as a converted copy
+    (seeded change C01-s5-A: mapped lists converted with `np.asarray(v, dtype=object)` turn equal-length tuples into ndarray rows)."""
+    if isinstance(v, DBox):
+        return kind_of(v.v)
+    if v is np.ma.masked:
+        return "masked"
+    if isinstance(v, np.ndarray):
+        return f"nd{v.ndim}"
+    if isinstance(v, tuple):
+        return "tuple"
+    if isinstance(v, list):
+        return "list"
+    return "-"
+
+
 def freeze(v):
     """A hashable stand-in for any value a function may receive."""
     if isinstance(v, DBox):
@@ -301,12 +320,14 @@ class Fail(Exception):
     """Default exception raised by a generated function told to fail."""
 
 
-def make_func(name, params, outputs, defaults=None, internal_shape=None, log=None, fail=None, delay=None):
+def make_func(name, params, outputs, defaults=None, internal_shape=None, log=None, fail=None, delay=None, kinds=False):
     """A real Python function `name(p1, p2=default, ...)` returning a term.
 
     params: the function's own parameter names; outputs: list of output names (len > 1 → returns a tuple of picks);
     defaults: {param: value}; internal_shape: tuple → each output is an object ndarray of `proj` terms;
     fail: callable(kwargs_enc, call_index) → exception to raise or None; delay: callable(kwargs_enc) → seconds.
+    kinds: also log, per call, a record `(name, [kwargs_enc, [[param, kind_of(value)]]], "kinds", pid)` (off by default: the logs of the
+    other harnesses hold "call" / "done" records only).
     """
     defaults = defaults or {}
     log = log if log is not None else LOG
@@ -321,6 +342,8 @@ def make_func(name, params, outputs, defaults=None, internal_shape=None, log=Non
         kw_enc = [[k, enc(v)] for k, v in kw_frozen]
         idx = next(counter)
         log.add(name, kw_enc, "call")
+        if kinds:
+            log.add(name, [kw_enc, [[k, kind_of(v)] for k, v in sorted(kw.items())]], "kinds")
         if delay is not None:
             import time
             d = delay(kw_enc)
